@@ -312,9 +312,18 @@ class Obs:
         s.n += 1
         uri = "file:///c03/doc%d.spl" % s.n
         srv = s.server()
-        srv.drop_notes(); feat.arrive(srv, uri, text, s.n)        # a third of the documents are reached by an edit
+        srv.drop_notes()
+        import random as _random
+        r = _random.Random("c03-neighbour/%d/%d" % (len(text), s.n)); nb = None
+        if r.random() < .2:
+            # a neighbour of the same length (another line structure or one name exchanged) is open and analysed right before:
+            # whatever the server keeps per process must not show in this document's diagnostics or their positions
+            nb = uri + ".neighbour"
+            srv.open(nb, feat.neighbour_text(text, r, r.choice(["same_length_layout", "same_length_layout", "same_length_name", "same_text"]), None)); feat._arr("with_an_open_neighbour")
+        feat.arrive(srv, uri, text, s.n)        # part of the documents are reached by an edit history
         d = srv.diags(uri)
         srv.close_doc(uri)
+        if nb: srv.close_doc(nb)
         lsp = None if d is None else [(x["message"].strip(), x["range"]) for x in d]
         res = s.ad.call(op="analyze", text=text)
         if "errors" in res:
